@@ -33,6 +33,7 @@ type Method struct {
 	Verb        string   `json:"verb"`  // "" = no @Method annotation
 	Route       *string  `json:"route"` // nil = no @Route annotation
 	Hidden      bool     `json:"hidden,omitempty"`
+	HiddenForm  int      `json:"hidden_form,omitempty"` // which spelling of @Hidden (see MethodComment)
 	Deprecated  bool     `json:"deprecated,omitempty"`
 	Params      []Param  `json:"params,omitempty"`
 	Ret         string   `json:"ret,omitempty"`      // value type; "" = error only
@@ -123,7 +124,8 @@ func MethodComment(m Method) []string {
 		}
 	}
 	if m.Hidden {
-		l = append(l, "// @Hidden")
+		// every way of writing it hides the method: bare, with a description, with a value, with both
+		l = append(l, []string{"// @Hidden", "// @Hidden not for the public", "// @Hidden(INTERNAL)", "// @Hidden(INTERNAL) not for the public"}[m.HiddenForm%4])
 	}
 	if m.Deprecated {
 		l = append(l, "// @Deprecated use something else")
